@@ -84,3 +84,6 @@ func verifRpmPayload(o scen.Options) {
 		}
 	}
 }
+
+// Verif_C01_C_RpmSources_Thorough: a tree, a directory source expanded by the glob model, an on-disk symlink.
+func Verif_C01_C_RpmSources_Thorough() { verifRpmPayload(scen.Options{Second: -4}) }
